@@ -42,6 +42,54 @@ CLAIMED["C07"] = (
     "Trusted: lowering + int-mode runtime (validated against the compiled module per run), SX string/int rendering model, numpy, z3. Outside: the float formatting of Python itself (format widths are observed on the written lines, not reasoned about symbolically), REMARK/assembly parsing, more than 4 atoms, non-increasing or negative atom ids together with CONECT records.",
     "DESIGN.md §4 C07")
 
+CLAIMED["C03"] = (
+    "KX: codec.pyx and kmeralphabet.pyx kernels lowered from source over symbolic bytes/codes (bit-vectors with a z3 array for the 256-entry table; mathematical ints for the radix arithmetic); alphabets, sequences, translation by solver-driven case split on the real classes against independent oracles (IUPAC table, NCBI table 1, ORF definition)",
+    "Bounded model checking. Codec: for alphabets of <= 3 (5) symbolic distinct bytes and <= 2 (3) symbolic symbols/codes over all 256 byte values, decode(encode(s)) == s, foreign symbols and codes >= |A| raise, map_sequence_code is exact and rejects out-of-range codes. K-mers: code = radix sum incl. the rolling update, split inverts it, illegal codes raise (|A| in {2,4,5,20}, k <= 4, spaced models). E-class: 14 alphabets x all pairs for mappers/extends/common_alphabet; all nucleotide/protein sequences up to length 3 (4) vs Python strings and the IUPAC pairing; all 64 codons and all sequences start+4 (7) bases: ORFs vs definition, derived codon tables leave their parent unchanged.",
+    "Trusted: lowering + typed runtime (validated against the compiled modules per run), z3, numpy in the E-class parts. Outside: alphabets beyond the menu, sequences longer than the bound, codon tables other than the default and 2 derived ones. Known finding: KmerAlphabet.fuse accepts code == |A|.",
+    "DESIGN.md §4 C03")
+
+CLAIMED["C05"] = (
+    "KX: RunLength / IntegerPacking / Delta encoders and decoders of encoding.pyx lowered from source and executed over fully symbolic fixed-width elements (bit-vectors, every fused instantiation); compression driver, chains, masks, strings and files by solver-driven case split on boundary menus through the real build",
+    "Bounded model checking. For every fused integer instantiation (int8..uint32) and arrays of <= 3 (4) fully symbolic elements z3 shows decode(encode(x)) == x for run-length and delta encoding and, for |v| <= 3 (5) x max + 2, for integer packing into 1 and 2 bytes (or the encoder raised), with no out-of-bounds access. E-class: compress()/serialise/deserialise/read/write on all pairs (triples) of a 23-value integer boundary menu, a 15-value float menu x 3 tolerances x float32/64 x 3 container levels, non-finite/overflowing floats, strings with masks, 6 explicit chains.",
+    "Trusted: lowering + typed runtime + symnp shim (validated against the compiled module per run), z3, numpy/msgpack in the E-class part. Outside: floating-point fixed-point/interval-quantisation arithmetic on symbolic floats (menu values only), arrays longer than the bound, StringArrayEncoding internals symbolically. Known finding: FixedPointEncoding.encode wraps silently.",
+    "DESIGN.md §4 C05")
+
+CLAIMED["C08"] = (
+    "KX: the DP kernels of pairwise.pyx/tracetable.pyx lowered from source, if-converted into one formula per table and compared by z3 with the maximum over all enumerated alignments (symbolic codes, fully symbolic matrix and gap penalties); follow_trace executed with forking on the symbolic trace table; wrapper end-to-end by solver-driven case split against brute force",
+    "Bounded model checking of optimality. For every shape up to 3x2/2x3 (thorough 3x3), alphabet size 2 (3), linear and affine penalties, global / semi-global / local: the score computed by the real kernel text equals the maximum over ALL alignments of the documented model for EVERY int matrix with entries in +-2^20 and every non-positive gap penalty (open < extend included). Traceback: every alignment follow_trace emits from the symbolic trace table is valid, recomputes to that score, non-empty results are distinct and at most max_number. E-class: compiled align_optimal on all small inputs of a menu (asymmetric/zero/negative matrices, 7 gap settings, uint8/uint16 alphabets).",
+    "Trusted: lowering + if-conversion + typed runtime (validated per run: lowered kernels + transcribed initialisation give the compiled align_optimal's score on concrete vectors), the enumeration oracle, z3. The wrapper's table initialisation and trace post-processing are transcribed (stubs) in the KX part and exercised for real only in the E-class part (i.e. on the compiled binary). Outside: sequences longer than 3, |A| > 3, code widths 32/64, matrices beyond +-2^20.",
+    "DESIGN.md §4 C08")
+
+CLAIMED["C09"] = (
+    "KX: ungapped seed-extension kernels lowered from source over symbolic codes, matrix and threshold (z3 decides equality with the X-drop definition); banded / gapped X-drop / ungapped wrappers by solver-driven case split against brute-force optima",
+    "Bounded model checking. Seed extension (both kernel variants): for diagonals of length 0..4 (6), every matrix entry in +-2^20 and every threshold, the result equals the X-drop definition, its score is the prefix sum of the returned length, never exceeds the best prefix and reaches it when the threshold cannot bind. E-class on the compiled align_local_ungapped / align_local_gapped / align_banded: every small input of the menus (shapes up to 3x3, asymmetric matrices, linear/affine gaps, every seed, thresholds 0..100, directions, every band incl. reversed and partly outside, local/semi-global): valid trace, reported == recomputed score, score_only consistency, seed/direction/band containment, <= brute-force optimum and == when the band covers the table / the threshold cannot bind.",
+    "Trusted: lowering + typed runtime (validated against the compiled module per run), the brute-force oracles, z3. Only the seed-extension kernels are encoded from source; the banded and X-drop table kernels are checked through the compiled binary (E-class). Outside: sequences longer than 4, |A| > 2. Known finding: align_banded boundary gap columns.",
+    "DESIGN.md §4 C09")
+
+CLAIMED["C01"] = (
+    "SX: atoms.py executed from its transformed source with symbolic integer indices and slice bounds (Python-level dispatch and index arithmetic explored symbolically, concretised by forking at the numpy boundary); operation histories by solver-driven case split; list-of-atoms reference model",
+    "Bounded model checking of AtomArray/AtomArrayStack: every index form (int, slice with symbolic bounds -5..5 and steps, masks, index arrays, ellipsis, all two-dimensional stack forms) on 3 atoms x 2 models with and without bonds/box gives the result of the list-of-atoms model; every operation sequence of length 2 (3) over 10 operations keeps annotation arrays, coordinates, boxes and the bond list consistent with the model (lengths/depths checked after each step), copies (array, stack, Atom) are equal and independent.",
+    "Trusted: numpy's own indexing (the model resolves indices with Python list semantics), the compiled BondList, SInt model, z3. Outside: more than 3 atoms / 2 models / 3 steps, annotation dtypes beyond int/str, NaN coordinates, integer indices outside the valid range (not accepted by numpy).",
+    "DESIGN.md §4 C01")
+
+CLAIMED["C17"] = (
+    "solver-driven case split over annotation patterns and bond graphs on the real segmentation code against a per-atom recomputation / union-find; KX: _find_connected lowered from bonds.pyx on a symbolic neighbour table (z3: visited == reachability closure)",
+    "Bounded model checking. Every annotation pattern on 0..4 (5) atoms generated by the 24 possible changes per boundary: starts, counts, masks, starts-for, positions, apply (scalar / float / array-valued with dtype), spread, iteration + concatenation, names equal the per-atom recomputation for residues and chains. Every bond graph on up to 4 (5) atoms: molecules == connected components, find_connected from every root. KX: for every symmetric neighbour table with <= 2 neighbours per atom on 2..3 (4) atoms and every root the lowered recursive search marks exactly the reachable atoms. Resource part: chains of 10..200000 atoms in fresh interpreters.",
+    "Trusted: numpy (searchsorted, repeat ...) in the E-class parts, lowering + runtime for the KX part, z3. Outside: arrays longer than 5 atoms, neighbour tables with > 2 slots. Known finding: recursion depth of find_connected (SIGSEGV on a 200000-atom chain).",
+    "DESIGN.md §4 C17")
+
+CLAIMED["C11"] = (
+    "solver-driven case split over traces generated from column types (validity by construction) on the real alignment / CIGAR / FASTA code and the compiled align_multiple, against column-by-column recomputation and an independently built CIGAR text",
+    "Bounded model checking (E-class: the z3 variables select column types, clip lengths, offsets, writer options and input sequences; every combination within the bound is a path). Every trace of up to 4 (5) columns over 2 sequences and 3 (4) over 3 sequences through gapped strings, code/symbol matrices, slicing, gap removal, terminal-gap detection, identity and score helpers; every pairwise trace x clipping x offset x all 16 CIGAR writer option combinations through write/read; FASTA alignment round trip with several gap characters; align_multiple on all tuples of an 8-sequence menu.",
+    "Trusted: numpy, the recomputation oracles in obligations/sx_c11.py, z3. Everything under check is executed concretely on each path (class E): no part of C11's code is reasoned about symbolically - the property is decided by exhaustive solver-driven enumeration within the bound. Outside: traces longer than 5 columns, multiple.pyx internals. Known finding: degenerate distance in align_multiple.",
+    "DESIGN.md §4 C11")
+
+CLAIMED["C04"] = (
+    "solver-driven case split over menu-built structures through the real convert.py / cif.py / bcif.py / compress.py (write -> text/binary/compressed -> read -> field-wise comparison); the model number of get_structure is a z3 variable explored over -5..5 and None against a row-filter model",
+    "Bounded model checking (thin S + E). Model/altloc selection: for files with 1..3 models every model number in -5..5 and None and every altloc policy returns exactly the matching rows, 0 and out-of-range numbers are rejected. Round trip: 2 residues x 3 atoms with residue types incl. hetero ligands with quote/prime atom names, 4 chain ids (multi-letter, prime), negative and large residue ids, insertion codes, optional fields incl. a free-text field with quotes/blanks, 8 intra- and 5 inter-residue bond types, link partners, 3 box kinds, 1-2 models; CIF, BinaryCIF and compressed BinaryCIF read back equal to the input and to each other.",
+    "Trusted: numpy, the synthetic CCD fixture, z3 as case-split driver (the conversion layer is numpy-vectorised: apart from the model arithmetic everything is executed concretely per path, class E). Assumptions: adjacent canonical residues carry exactly the implicit peptide bond; inter-residue bond types limited to what struct_conn expresses. Outside: real CCD content, > 6 atoms, float coordinates beyond exactly representable menu values, assemblies.",
+    "DESIGN.md §4 C04")
+
 NOT_APPLICABLE = {
     "C15": "float results of numpy/LAPACK (linalg solves, trigonometry, argmin over float images): no integer/string logic in front of the C boundary that a solver could reason about; an abstraction over the reals would verify a model of numpy, not the code (DESIGN §6)",
     "C16": "optimality/properness come from np.linalg.svd/det (LAPACK behind FFI) on float32 data; no encodable source; z3 terms cannot pass astype(float32) (DESIGN §6)",
